@@ -139,10 +139,11 @@ Print Assumptions C15_shell_blanks_only.
 (* round 4: totality (no Go panic) and the exact result of the compact fixers *)
 
 (* CheckTrailingWhitespace never panics on a logical line (>= 1 raw line) and removes exactly the
-   maximal suffix of spaces and tabs of the last raw line *)
+   maximal suffix of spaces and tabs of the last raw line -- unless what is left would end in a
+   backslash (trim_result; /repo a0c5e27), then the line is left alone *)
 Theorem C15_trailing_exact : forall raws, raws <> [] ->
   exists init last, raws = init ++ [last] /\
-    checkTrailingWhitespace raws = Ok (init ++ [rtrimHspace last]).
+    checkTrailingWhitespace raws = Ok (init ++ [trim_result last]).
 Proof. exact checkTrailingWhitespace_spec. Qed.
 Print Assumptions C15_trailing_exact.
 
@@ -162,12 +163,27 @@ Print Assumptions C15_shell_total.
 Example C15_shell_needs_two_tabs : shellTabs true [[9; 120]%N] = Panic.
 Proof. vm_compute. reflexivity. Qed.
 
-(* fixSpaceAfterVarname (as of /repo 42e6bf1 the leading comment marker is kept) *)
+(* fixSpaceAfterVarname as coded (/repo 42e6bf1: the leading comment marker is kept; 84b7475: the
+   name is taken from the raw varnameOp -- operator cut off, right-trimmed, operator re-appended):
+   blanks only, whatever the splitter's varnameOp looks like (round 5: no hypothesis on it any more) *)
 Theorem C15_spaceAfterVarname_blanks_only : forall raws vn sp op p0 raws',
-  blankb (sbv p0) = true -> blankb sp = true -> vo p0 = vn ++ sp ++ op ->
+  blankb (sbv p0) = true ->
   fixSpaceAfterVarname raws vn sp op p0 = Ok raws' -> Forall2 blank_eq raws raws'.
 Proof. exact spaceAfterVarname_blanks_only. Qed.
 Print Assumptions C15_spaceAfterVarname_blanks_only.
+
+(* ... and exactly which blanks: varnameOp = name ++ b ++ op with b blank and name not ending in a
+   blank; the text leadingComment ++ name ++ b ++ op ++ spaceBeforeValue is replaced (where it occurs
+   exactly once) by leadingComment ++ name ++ op ++ a, a blank.  So every byte of the variable name
+   as written -- blanks inside ${...:S, ,_,g}, an escaped '#' -- is kept: the name the parser reads
+   from the fixed line is the name it read before. *)
+Theorem C15_spaceAfterVarname_name_untouched : forall raws vn sp op p0 raws',
+  fixSpaceAfterVarname raws vn sp op p0 = Ok raws' ->
+  raws' = raws \/
+  exists name b a, vo p0 = name ++ b ++ op /\ rtrimHspace name = name /\ blankb b = true /\ blankb a = true /\
+    raws' = replaceAfter raws [] (lc p0 ++ (name ++ b ++ op) ++ sbv p0) (lc p0 ++ (name ++ op) ++ a).
+Proof. exact spaceAfterVarname_exact. Qed.
+Print Assumptions C15_spaceAfterVarname_name_untouched.
 
 (* ===== paragraphs made only of single-line assignments ===== *)
 
@@ -256,3 +272,77 @@ Proof. exact w72_repaired. Qed.
 Example C15_witness_commented :
   fixSpaceAfterVarname sav_raws [86]%N [32]%N [61]%N sav_parts = Ok [[35; 86; 61; 9; 118]%N].
 Proof. exact spaceAfterVarname_keeps_comment. Qed.
+
+(* ===== round 5: the line structure survives the fix (C15 tied to the loader model of C09) =====
+
+   Lines.convert_to_logical_lines s true is convertToLogicalLines in makefile mode (Model/Lines.v,
+   property C09): the physical lines of the text s grouped into logical lines; a physical line
+   whose content ends in an odd number of backslashes is continued by the next one.
+   [C15Reload.trailing_fix rs] = CheckTrailingWhitespace (Model/LayoutFix.v) on the contents of the
+   physical lines rs of one logical line, every line feed staying where it was;
+   [trailing_fix_file ls] = the text that is written back.  For ALL file texts s: the text written
+   back, loaded again, has the same number of logical lines, each with the same number of physical
+   lines, namely the fixed ones.  The only side condition: no logical line ends in a physical line
+   that has no line feed and consists of blanks only (the unterminated last line of a file; that
+   line vanishes -- see C15_trailing_blank_last_line_vanishes). *)
+From PV Require Model.Lines Spec.LinesSpec Proofs.C15Reload.
+
+Theorem C15_trailing_keeps_line_structure : forall (s : str) (ls : list Lines.line) (e : bool),
+  Lines.convert_to_logical_lines s true = Lines.Ok (ls, e) ->
+  (forall l, In l ls -> C15Reload.no_vanishing_line (Lines.raws l)) ->
+  exists ls' e',
+    Lines.convert_to_logical_lines (C15Reload.trailing_fix_file ls) true = Lines.Ok (ls', e')
+    /\ length ls' = length ls
+    /\ map (fun l => length (Lines.raws l)) ls' = map (fun l => length (Lines.raws l)) ls
+    /\ map Lines.raws ls' = map (fun l => C15Reload.trailing_fix (Lines.raws l)) ls.
+Proof. exact C15Reload.trailing_keeps_line_structure. Qed.
+Print Assumptions C15_trailing_keeps_line_structure.
+
+(* the side condition holds for every logical line whose last physical line ends in a line feed *)
+Theorem C15_no_vanishing_of_newline : forall rs,
+  LinesSpec.ends_nl (last rs []) = true -> C15Reload.no_vanishing_line rs.
+Proof. exact C15Reload.no_vanishing_of_nl. Qed.
+Print Assumptions C15_no_vanishing_of_newline.
+
+Example C15_trailing_blank_last_line_vanishes :
+  C15Reload.line_structure C15Reload.vanishing_text = Some [1; 1]%nat /\
+  C15Reload.fix_text C15Reload.trailing_fix_file C15Reload.vanishing_text = Some [65; 61; 49; 10]%N /\
+  C15Reload.line_structure [65; 61; 49; 10]%N = Some [1]%nat.
+Proof. exact C15Reload.trailing_blank_last_line_vanishes. Qed.
+
+(* the behaviour before /repo a0c5e27 (trim regardless of a backslash; kept in Proofs/C15Reload.v
+   only as the counterexample) breaks it: "VAR=\tvalue \\ \nOTHER=\tx\n" has the line structure
+   [1; 1], after the old fix [2]; the repaired fix leaves the text alone *)
+Example C15_old_trailing_fix_joins_lines :
+  C15Reload.line_structure C15Reload.witness_text = Some [1; 1]%nat /\
+  (exists s', C15Reload.fix_text C15Reload.trailing_fix_file_old C15Reload.witness_text = Some s'
+              /\ C15Reload.line_structure s' = Some [2]%nat) /\
+  C15Reload.fix_text C15Reload.trailing_fix_file C15Reload.witness_text = Some C15Reload.witness_text.
+Proof. exact C15Reload.old_trailing_fix_joins_lines. Qed.
+
+Theorem C15_old_trailing_keeps_line_structure_refuted : ~ C15Reload.old_keeps_line_structure.
+Proof. exact C15Reload.old_keeps_line_structure_refuted. Qed.
+Print Assumptions C15_old_trailing_keeps_line_structure_refuted.
+
+(* the same question for the other compact fixers, for ALL file texts and any choice of lines,
+   depths and (blank) parsed indentations: directive re-indentation ... *)
+Theorem C15_directive_keeps_line_structure :
+  forall (s : str) (ls : list Lines.line) (e : bool) (choice : Lines.line -> bool * str * Z),
+  Lines.convert_to_logical_lines s true = Lines.Ok (ls, e) ->
+  (forall l, In l ls -> blankb (snd (fst (choice l))) = true) ->
+  let F := fun l => C15Reload.directive_fix (fst (fst (choice l))) (snd (fst (choice l))) (snd (choice l)) (Lines.raws l) in
+  exists ls' e',
+    Lines.convert_to_logical_lines (concat (flat_map F ls)) true = Lines.Ok (ls', e')
+    /\ map Lines.raws ls' = map F ls.
+Proof. exact C15Reload.directive_keeps_line_structure. Qed.
+Print Assumptions C15_directive_keeps_line_structure.
+
+(* ... and the tab normalisation of shell lines *)
+Theorem C15_shell_keeps_line_structure : forall (s : str) (ls : list Lines.line) (e flag : bool),
+  Lines.convert_to_logical_lines s true = Lines.Ok (ls, e) ->
+  exists ls' e',
+    Lines.convert_to_logical_lines (concat (flat_map (fun l => C15Reload.shell_fix flag (Lines.raws l)) ls)) true
+      = Lines.Ok (ls', e')
+    /\ map Lines.raws ls' = map (fun l => C15Reload.shell_fix flag (Lines.raws l)) ls.
+Proof. exact C15Reload.shell_keeps_line_structure. Qed.
+Print Assumptions C15_shell_keeps_line_structure.
